@@ -302,9 +302,11 @@ def _dtm_arg(f: list[int]) -> Any:
     return dtm_text(f).replace("T", " ")
 
 
-def row_dtm_enc(f: list[int], dst: int, incl: int) -> list[Any]:
+def row_dtm_enc(f: list[int], dst: int, incl: int, none_dst: bool = False) -> list[Any]:
     try:
-        txt = H.hex_from_dtm(_dtm_arg(f), is_dst=bool(dst), incl_seconds=bool(incl))
+        # none_dst: the flag given as None (what the decoder reports for a clear DST bit, and what a caller who
+        # passes a decoded payload back hands over) - it must encode as "not DST", like False
+        txt = H.hex_from_dtm(_dtm_arg(f), is_dst=None if none_dst else bool(dst), incl_seconds=bool(incl))
     except Exception:  # noqa: BLE001
         return [f, dst, incl, 1, [], 5, Z6]
     ecls, b = _hexbytes(txt, 7 if incl else 6)
@@ -329,7 +331,8 @@ def row_dtm_dec(b: list[int]) -> list[Any]:
         return [b, dcls, Z6, 5, []]
     incl = len(b) == 7
     try:
-        txt2 = H.hex_from_dtm(d, is_dst=bool(incl and b[0] & 0x80), incl_seconds=incl)
+        # the flag as the library's own decoder reports it (parser_313f: True for a set DST bit, None for a clear one)
+        txt2 = H.hex_from_dtm(d, is_dst=(True if (incl and b[0] & 0x80) else None), incl_seconds=incl)
     except Exception:  # noqa: BLE001
         return [b, 0, f, 1, []]
     ecls, b2 = _hexbytes(txt2, len(b))
@@ -752,6 +755,8 @@ def _rows_job(args: tuple[str, str, list]) -> list:
         return [row_flag_enc(*x) for x in inputs]
     if kind == "dtm_enc":
         return [row_dtm_enc(*x) for x in inputs]
+    if kind == "dtm_enc_none":
+        return [row_dtm_enc(x[0], 0, x[2], none_dst=True) for x in inputs]
     if kind == "dtm_enc_tz":   # the same rows with the process in a time zone that has daylight saving (UK rules)
         import time as _time
         old_tz = os.environ.get("TZ")
@@ -817,6 +822,9 @@ def build_tables(tier: str, seed: int = 0, only: list[str] | None = None) -> tup
     tz_days = {(2024, 3, 31), (2024, 10, 27), (2021, 6, 15)}
     specs.append(("dtm_tz", "dtm", "enc", [], "every minute of 2024-03-31, 2024-10-27, 2021-06-15 with TZ=GMT0BST (UK rules)",
                   "dtm_enc_tz", [x for x in dtm_enc_inputs("quick") if tuple(x[0][:3]) in tz_days]))
+    specs.append(("dtm_none", "dtm", "enc", [], "is_dst=None (as decoded from a clear DST bit): the special days, both forms",
+                  "dtm_enc_none", [(x[0], 0, inc) for x in dtm_enc_inputs("quick") if tuple(x[0][:3]) in tz_days and x[0][4] % 7 == 0
+                                   for inc in (0, 1)]))
     specs.append(("dtm", "dtm", "dec", [], "cross product of boundary / invalid field bytes incl. day-of-week and DST bits, "
                   "6- and 7-byte forms", "dtm_dec", dtm_dec_inputs()))
     specs.append(("dtm", "dtm", "sent", [], "None, both forms", "dtm_sent", [0, 1]))
